@@ -441,10 +441,11 @@ class Parser(FStringRules, ThreeNineParser):
                 raise AssertionError()
 
         if build_complex:
-            # TODO raise syntax error instead (see reason in p_literal_expr_number_or_string_literal_list)
-            assert isinstance(right.value, complex), (
-                "right part of complex literal must be imaginary"
-            )
+            if not isinstance(right.value, complex):
+                self._set_error(
+                    "imaginary number required in complex literal",
+                    self.currloc(lineno=right.lineno, column=right.col_offset + 1),
+                )
 
             if negate_left_side:
                 left = ast.UnaryOp(op=ast.USub(), operand=left, **loc)
